@@ -575,3 +575,21 @@ func exportedEqual(a, b reflect.Value) bool {
 		return true
 	}
 }
+
+// AfterSteps returns a channel that is closed once limit has passed in twenty separate waits of
+// limit/20. A single timer of the whole length fires at once when the clock jumps (the machine was
+// paused, a snapshot was taken); here a jump ends one wait only, so the watched code still gets
+// nineteen twentieths of the limit in running time. Watchdogs built on it stay what they are
+// meant to be: generous bounds on progress, not verdicts on speed. The helper goroutine lives for
+// the whole limit: for occasional waits only (hot paths step their own timers, as C11's scenario
+// watchdog does).
+func AfterSteps(limit time.Duration) <-chan struct{} {
+	ch := make(chan struct{})
+	go func() {
+		for i := 0; i < 20; i++ {
+			time.Sleep(limit / 20)
+		}
+		close(ch)
+	}()
+	return ch
+}
